@@ -37,12 +37,8 @@ def plan(tier, seed):
 
 
 def run_shard(spec):
-    res = _rtbase.run(spec, judge, passes=3, nontrivial=nontrivial, want_out_read=False,
-                      domain=R.in_c06_domain)
-    if spec["kind"] == "adj" and spec.get("part") == 0:
-        from nmverif.engines import editrt
-        editrt.stability_leg(res)
-    return res
+    return _rtbase.run(spec, judge, passes=3, nontrivial=nontrivial, want_out_read=False,
+                       domain=R.in_c06_domain)
 
 
 def replay(case):
